@@ -24,7 +24,7 @@ class Main(P.PorcelainSuite):
     name = "main"
     quick_n = 150
     thorough_n = 1000
-    buckets = [(4, "staged"), (4, "untracked"), (3, "keep"), (2, "unstaged"), (2, "rmcached"), (2, "random"), (1, "df")]
+    buckets = [(4, "staged"), (4, "untracked"), (3, "keep"), (2, "unstaged"), (2, "rmcached"), (2, "random"), (1, "missing"), (1, "df")]
     weights = {"force": 1, "plain": 6, "ckeep": 2, "hard": 1, "merge": 4, "keep": 4, "mixed": 1, "soft": 1}
 
     def gen(self, rng, n, tier):
